@@ -8,6 +8,7 @@ import VerifModel.Driver.Scripts
 import VerifModel.Driver.Axis
 import VerifModel.Driver.Output
 import VerifModel.Driver.Text
+import VerifModel.Driver.Args
 /-
   verifdrv — line-protocol driver: one operation per input line, one canonical
   reply line.  `ERR bad-op` for anything a handler does not recognise.
@@ -15,7 +16,7 @@ import VerifModel.Driver.Text
 open VerifModel
 
 def handlers : List (List String → Option String) :=
-  [Driver.Cmp.handle, Driver.Cont.handle, Driver.Det.handle, Driver.Data.handle, Driver.Clean.handle, Driver.Agg.handle, Driver.Scripts.handle, Driver.Axis.handle, Driver.Output.handle, Driver.Text.handle]
+  [Driver.Cmp.handle, Driver.Cont.handle, Driver.Det.handle, Driver.Data.handle, Driver.Clean.handle, Driver.Agg.handle, Driver.Scripts.handle, Driver.Axis.handle, Driver.Output.handle, Driver.Text.handle, Driver.Args.handle]
 
 def step (line : String) : String :=
   let args := (line.trimAscii.toString.splitOn " ").filter (· ≠ "")
